@@ -31,7 +31,7 @@ func init() {
 			"sampling: a clean batch is evidence, not proof",
 		},
 		Engines:    []string{"INLINE histories", "BUBBLE (testing/synctest)", "BATON-RACE (-race build)"},
-		FaultKinds: []string{"compile_op_error", "abort", "task_stall", "task_abandon"},
+		FaultKinds: []string{"compile_op_error", "abort", "task_stall", "task_abandon", "slow_call (a stateless operator spends 300 ms of the bubble's simulated clock during Compile)"},
 	}
 	extraPhases["C08"] = racePhase
 	replayHooks["C08"] = raceReplay
@@ -58,6 +58,13 @@ func (propC08) Gen(r *Rng, tier string) *World {
 		w.Progs = append(w.Progs, g.Program())
 	}
 	w.Cfg = g.C
+	for i := range w.Cfg.Ops {
+		if w.Cfg.Ops[i].Stateless && w.Cfg.Ops[i].Kind == "pure" && r.P(0.15) {
+			// a stateless operator whose first call is slow (lazily loaded table):
+			// how long folding takes is no input of Compile
+			w.Cfg.Ops[i].SlowFirst = true
+		}
+	}
 	w.Cfg.OptMask = r.Intn(16)
 	w.Extra["build"] = strconv.Itoa(r.Intn(5))
 	w.Extra["set_opts"] = []string{"0", "1"}[r.Intn(2)]
@@ -545,6 +552,8 @@ func (pr propC08) Run(w *World, st *Stats) *Violation {
 		// compile-time callbacks carry no Ctx: the host finds the running
 		// task's Env through CompileEnv, which each task re-installs whenever
 		// it is resumed (only one task runs at a time)
+		rn.host.Sleep = b.Sleep
+		defer func() { rn.host.Sleep = nil }()
 		b.Exec = func(task, call int, s Step, yield func(kind, name string)) *Outcome {
 			var myEnv *Env
 			y := func(kind, name string) {
